@@ -603,7 +603,32 @@ class Interp(BuiltinsMixin):
             if c == v or c == sv:
                 return pol
         t = self.hooks.truth(self, v, path)
+        if t is None and isinstance(v, (Sym, App)):
+            t = self._instance_truth(v, sv, path)
         return t
+
+    def _instance_truth(self, v, sv, path):
+        """an instance of a package class whose MRO (and whose package
+        subclasses) define neither __bool__ nor __len__ is true"""
+        from .program import ClassInfo
+        known = []
+        ci = self.class_of(v, path)
+        if isinstance(ci, ClassInfo):
+            known.append(ci)
+        for (c, pol) in path.pc:
+            if pol and isinstance(c, App) and c.op == 'isinstance' and \
+                    c.args[0] in (v, sv) and isinstance(c.args[1], CRef) and \
+                    isinstance(c.args[1].ci, ClassInfo):
+                known.append(c.args[1].ci)
+        for k in known:
+            subs = [c for c in self.prog.classes.values()
+                    if c.is_subclass_of(k)]
+            if all(isinstance(m, ClassInfo) and '__bool__' not in m.attrs and
+                   '__len__' not in m.attrs or
+                   (not isinstance(m, ClassInfo) and m.short() == 'object')
+                   for c in subs for m in c.mro):
+                return True
+        return None
 
     # -- loops -------------------------------------------------------------
     def concrete_iter(self, it, path):
